@@ -5,7 +5,8 @@ the property it breaks (and optionally other checks), and writes /verif/seeded/R
 Usage: tools/run_seeds.py [name ...]'''
 import json, os, subprocess, sys, time
 HOME = '/verif'
-names = sys.argv[1:] or sorted(n for n in os.listdir(f'{HOME}/seeded') if os.path.isdir(f'{HOME}/seeded/{n}'))
+TABLE_ONLY = sys.argv[1:] == ['--table']
+names = [] if TABLE_ONLY else sys.argv[1:] or sorted(n for n in os.listdir(f'{HOME}/seeded') if os.path.isdir(f'{HOME}/seeded/{n}'))
 try:
     results = json.load(open(f'{HOME}/seeded/RESULTS.json'))
 except Exception:
@@ -13,7 +14,7 @@ except Exception:
 REPO = os.environ.get('SEED_REPO', '/tmp/repo-seeds')
 mine = {}
 subprocess.run(['git', '-C', '/repo', 'worktree', 'remove', '--force', REPO], capture_output=True)
-assert subprocess.run(['git', '-C', '/repo', 'worktree', 'add', '-q', '--detach', REPO, 'HEAD']).returncode == 0
+assert TABLE_ONLY or subprocess.run(['git', '-C', '/repo', 'worktree', 'add', '-q', '--detach', REPO, 'HEAD']).returncode == 0
 ENV = dict(os.environ, VERIF_REPO=REPO, VERIF_EVIDENCE_DIR=REPO + '-evidence', VERIF_REPLAY_DIR=REPO + '-replays')
 for n in names:
     d = f'{HOME}/seeded/{n}'
